@@ -334,9 +334,22 @@ def run_case(case):
             else:
                 kinds = (str(rng.choice(["upper", "lower"])),)
             lo, hi, ks = gen.limits(rng, m, a @ x0, kinds=kinds)
+            cut = int(rng.integers(1, m))
+            if rng.random() < 0.2:
+                # limits of very different magnitudes in one object: a huge
+                # one-sided limit first, then a narrow two-sided row (what
+                # 'lb = ub to rounding' means must not depend on the grouping)
+                v0 = a @ x0
+                lo[0], hi[0] = -math.inf, float(10.0 ** rng.uniform(8, 14))
+                ks[0] = "upper"
+                gap = float(10.0 ** rng.uniform(-6, -2))
+                lo[1] = v0[1] - gap * float(rng.random())
+                hi[1] = lo[1] + gap
+                ks[1] = "two"
+                cut = 1
+                tags.append("mixed_magnitudes")
             spec["lin"] = [{"A": a.tolist(), "lb": lo.tolist(),
                             "ub": hi.tolist()}]
-            cut = int(rng.integers(1, m))
             s2 = copy.deepcopy(spec)
             s2["lin"] = [{"A": a[:cut].tolist(), "lb": lo[:cut].tolist(),
                           "ub": hi[:cut].tolist()},
